@@ -20,6 +20,6 @@ OUT=/verif/notes/coverage-$TIER.txt
 { echo "# line/region coverage of /repo/src by: $CHECKS ($TIER)"; 
   $SYS/llvm-cov report $W/bin/redo -instr-profile=$W/all.profdata --ignore-filename-regex='(\.cargo|rustc|/target/)' 2>/dev/null;
   echo; echo "# functions never executed";
-  $SYS/llvm-cov report $W/bin/redo -instr-profile=$W/all.profdata --ignore-filename-regex='(\.cargo|rustc|/target/)' -show-functions /repo/src/*.rs /repo/src/bin/redo/*.rs 2>/dev/null | awk '$NF=="0.00%" || $(NF-3)=="0.00%" {print}' | rustfilt 2>/dev/null || true; } > $OUT 2>&1
+  $SYS/llvm-cov report $W/bin/redo -instr-profile=$W/all.profdata --ignore-filename-regex='(\.cargo|rustc|/target/)' -show-functions /repo/src/*.rs /repo/src/bin/redo/*.rs 2>/dev/null | awk 'NF>4 && ($NF=="0.00%" || $(NF-3)=="0.00%") {print}' | rustfilt 2>/dev/null || true; } > $OUT 2>&1
 $SYS/llvm-cov show $W/bin/redo -instr-profile=$W/all.profdata --ignore-filename-regex='(\.cargo|rustc|/target/)' -show-line-counts-or-regions -Xdemangler=cat > $W/show.txt 2>/dev/null || true
 echo "report: $OUT ; annotated source: $W/show.txt"
